@@ -131,7 +131,11 @@ func runOne(prop string, sc Scenario, tape *simrt.Tape, run int, trace bool, fla
 	dir := filepath.Join(ScratchBase(), fmt.Sprintf("r%d", run))
 	os.RemoveAll(dir)
 	os.MkdirAll(dir, 0777)
-	ctx = &RunCtx{Prop: prop, Tape: tape, Dir: dir, Run: run, Trace: trace, Flags: flags, Notes: map[string]int{}, StateHs: map[uint64]bool{}}
+	own := map[string]string{} // a scenario may set flags of its own: never shared between runs
+	for k, v := range flags {
+		own[k] = v
+	}
+	ctx = &RunCtx{Prop: prop, Tape: tape, Dir: dir, Run: run, Trace: trace, Flags: own, Notes: map[string]int{}, StateHs: map[uint64]bool{}}
 	var v *Violation
 	func() {
 		defer func() {
